@@ -17,7 +17,9 @@ REPO = Path(os.environ.get("VERIF_REPO", "/repo"))
 NCPU = os.cpu_count() or 8
 
 FORBIDDEN = re.compile(
-    r"\b(Admitted|admit|Axiom|Axioms|Parameter|Parameters|Conjecture|Hypothesis|Variable)\b|Unset Guard|bypass_check|type-in-type|Admit Obligations|native_compute")
+    r"\b(Admitted|admit|Axiom|Axioms|Parameter|Parameters|Conjecture|Conjectures|Hypothesis|Hypotheses|Variable|Variables|Context)\b|Unset Guard|Unset Positivity|Unset Universe|bypass_check|type-in-type|impredicative-set|Admit Obligations|native_compute")
+MODULE_TYPE_FILES = set()   # no module types of our own: the functors take the standard library's OrderedTypeFull'
+SECTION_LOCAL = {"Hypothesis", "Hypotheses", "Variable", "Variables", "Context"}
 
 
 def _clean(out: str) -> str:
@@ -83,11 +85,23 @@ def scan_forbidden() -> list[str]:
         while prev != txt:
             prev = txt
             txt = re.sub(r"\(\*[^*]*(?:\*(?!\))[^*]*)*\*\)", " ", txt)
+        stack = []   # 'S' for an open Section, 'M' for an open Module / Module Type
         for i, line in enumerate(txt.splitlines(), 1):
+            st = line.strip()
+            if re.match(r"Section\s+\w+\s*\.", st):
+                stack.append("S")
+            elif re.match(r"Module\s+(Type\s+)?\w+[^=]*\.\s*$", st) and ":=" not in st:
+                stack.append("M")
+            elif re.match(r"End\s+\w+\s*\.", st) and stack:
+                stack.pop()
             m = FORBIDDEN.search(line)
             if m:
-                # `Variable A : Type.` inside a Section is allowed (SpecTypes.v Section Data)
-                if m.group(0) == "Variable" and f.name == "SpecTypes.v":
+                # Variable / Hypothesis / Context inside a Section are discharged at End and declare nothing;
+                # in a Module Type they are functor parameters (only `Parameter`, which is flagged separately below)
+                if m.group(0) in SECTION_LOCAL and "S" in stack:
+                    continue
+                # `Parameter` inside a Module Type is the signature of a functor argument (Order.v), instantiated in Pep440.v
+                if m.group(0) in ("Parameter", "Parameters", "Axiom") and stack and stack[-1] == "M" and f.name in MODULE_TYPE_FILES:
                     continue
                 hits.append(f"{f.relative_to(COQ)}:{i}: {line.strip()[:100]}")
     return hits
